@@ -943,6 +943,19 @@ func (fr *Frame) loopModifies(h *ssa.BasicBlock) []string {
 				}
 			case *ssa.Select:
 				set[vc.chposComp()] = true
+			case *ssa.Next:
+				if mi := mapIters[fr][ins.Iter]; mi != nil {
+					set[vc.mapIterComp(mi.mt.Key())] = true
+				} else if r, ok := ins.Iter.(*ssa.Range); ok {
+					if mt, ok := r.X.Type().Underlying().(*types.Map); ok {
+						set[vc.mapIterComp(mt.Key())] = true
+					}
+				}
+			case *ssa.Range:
+				set["$alloc"] = true
+				if mt, ok := ins.X.Type().Underlying().(*types.Map); ok {
+					set[vc.mapIterComp(mt.Key())] = true
+				}
 			case ssa.CallInstruction:
 				cm, ok := fr.callModifies(ins)
 				if !ok {
